@@ -265,9 +265,17 @@ def feed_variants(make, chunks, observe_one, twin_stream: bytes = b""):
     twin instance fed a different stream in alternation (no state may be shared between instances).  Observations are
     taken both when the messages are returned and again at the end (a returned message must not change afterwards).
     Yields (variant name, observation at return time, observation at the end)."""
+    POISON_H = (b"\x7e\xa0\x0a\x01\x02\x01\x10\x13\x7d", b"\x7e")  # leaves the twin inside a frame whose last octet is 7D / at a flag
+    POISON_P = (b"/XYZ5twin\r\n1-0:1.8.0(1", b")\r\n!")  # leaves the twin inside a readout / right after an end character
+
     def run(feeder_name):
         r = make()
-        twin = make() if feeder_name == "interleaved-twin" else None
+        twin = make() if feeder_name.endswith("-twin") or feeder_name.startswith("poison-twin") else None
+        poison = None
+        if feeder_name.startswith("poison-twin"):
+            poison = POISON_P if type(r).__name__ == "ModeDReader" else POISON_H
+            twin.read(poison[int(feeder_name[-1])])
+        reused = bytearray()
         tpos = [0]
         msgs, early = [], []
         for i, c in enumerate(chunks):
@@ -281,13 +289,22 @@ def feed_variants(make, chunks, observe_one, twin_stream: bytes = b""):
             if feeder_name == "bytearray-wiped":
                 buf = bytearray(c)
                 got = r.read(buf)
+                if bytes(buf) != bytes(c):
+                    raise AssertionError(f"read() modified the caller's chunk object: {bytes(buf)!r:.60} was {bytes(c)!r:.60}")
                 for k in range(len(buf)):
                     buf[k] = 0x7E if k % 2 else 0x2F
+            elif feeder_name == "bytearray-reused":
+                reused[:] = c  # one receive buffer, refilled for every call (what a serial or socket loop does)
+                got = r.read(reused)
+                if bytes(reused) != bytes(c):
+                    raise AssertionError(f"read() modified the caller's chunk object: {bytes(reused)!r:.60} was {bytes(c)!r:.60}")
             else:
                 got = r.read(c)
             if feeder_name == "empty-chunks" and i % 2 == 0:
                 got = got + r.read(b"")
-            if twin is not None:
+            if poison is not None:
+                twin.read(poison[(i + 1 + int(feeder_name[-1])) % 2])
+            elif twin is not None:
                 if twin_stream:  # the twin receives well-formed traffic of its own, a slice per step
                     k = (tpos[0] % len(twin_stream))
                     twin.read((twin_stream + twin_stream)[k:k + len(c) + 1])
@@ -301,6 +318,6 @@ def feed_variants(make, chunks, observe_one, twin_stream: bytes = b""):
             early += [observe_one(m) for m in got]
             msgs += got
         return tuple(early), tuple(observe_one(m) for m in msgs)
-    for name in ("plain", "bytearray-wiped", "empty-chunks", "interleaved-twin", "stalled-link", "deepcopy-fork"):
+    for name in ("plain", "bytearray-wiped", "bytearray-reused", "empty-chunks", "interleaved-twin", "poison-twin-0", "poison-twin-1", "stalled-link", "deepcopy-fork"):
         e, f = run(name)
         yield name, e, f
